@@ -40,7 +40,10 @@ CFG = dict(
                "exactness on a grid, an ABSOLUTE bound for the population variance) and which are false without the condition "
                "number (relative bounds for the closed forms under cancellation, stability of the EPS branch); there rounding "
                "remains the comparator tolerance. "
-               "The model is tied to the code by ~100k differential cases per run through every iterator source.",
+               "The model is tied to the code by ~100k differential cases per run through every iterator source. "
+               "Second, static tie (translator): on every run the guards of vsum / vmean / vmean_var / vvar / vstd / vskew / vkurt / vcov / vcorr_pearson / n_sum_filter / vmean_filter (comparison operator, constant, side of EPS, the max_with(2) floor) and the EPS literal are re-extracted from the Rust source text and Proofs/SrcTablesAgg.v re-proves, for every series and min_periods, that Model/Agg.v makes exactly those decisions (src_*_conforms).",
+    src_tables=True,   # tools/gen_tables.py + Proofs/SrcTablesAgg.v: decision tables regenerated from the Rust source on every run
+    src_tables_proofs=["Proofs/SrcTablesAgg.vo"],
     level_note="Trusted: Coq kernel + Reals axioms for the option-R theorems (integer / order theorems are axiom-free); the "
                "hand-written model; binary64 rounding is outside the theorems (except the one-pass sum, (R1)-(R4)) and absorbed by the tolerance (generated values "
                "are dyadic so the power sums are exact); f64::powi modelled as compiler-rt square-and-multiply; the numeric "
